@@ -161,6 +161,10 @@ type Method struct {
 	Routes    []*Route          `json:"routes"`
 	Params    map[string]string `json:"params,omitempty"`  // attr -> query key
 	Headers   map[string]string `json:"headers,omitempty"` // attr -> header name
+	// ImplicitHeaders: credential attributes whose Authorization mapping (present in Headers, which is what the
+	// reference model reads) is NOT written in the design: goa maps token/key attributes of schemes without an
+	// explicit location to the Authorization header by itself
+	ImplicitHeaders map[string]bool `json:"implicit_headers,omitempty"`
 	Cookies   map[string]string `json:"cookies,omitempty"` // attr -> cookie name
 	Body      string            `json:"body,omitempty"`    // attribute used as whole body
 	Responses []*Response       `json:"responses,omitempty"`
